@@ -17,7 +17,8 @@ import (
 func algorithmHasher(i ipmi.IntegrityAlgorithm, g AdditionalKeyMaterialGenerator) (hash.Hash, error) {
 	switch i {
 	case ipmi.IntegrityAlgorithmNone:
-		return nil, nil
+		// a nil hash would be dereferenced by the session layer when signing
+		return nil, fmt.Errorf("integrity algorithm %v is not supported", i)
 	case ipmi.IntegrityAlgorithmHMACSHA196:
 		return &truncatedHash{
 			Hash:   hmac.New(sha1.New, g.K(1)),
